@@ -84,6 +84,8 @@ def check(ctx) -> None:
     ctx.rule("C22.protected", "every statement-level coverage-guarded remover skips statements whose bound variable is in get_assertion_protected_variables(test case)", floor=3)
     ctx.rule("C22.closure", "the backward closure of the protected set iterates to a fixed point: the change flag is only ever raised inside a scan, reset only at the start of a pass", floor=3)
     ctx.rule("C22.stale", "an in-place change of a test case that stays inside a suite/chromosome is followed, before the next coverage computation, by invalidation of its chromosome (fresh TestCaseChromosome / remove_last_execution_result / changed=True)", floor=3)
+    ctx.rule("C22.asserted", "ABSINT: _directly_asserted_variables returns the root variable of the source of every reference assertion of every statement (bound or not), and no exception assertion", floor=3)
+    _asserted(ctx, repo)
     ctx.rule("C22.subset", "WHO-MAY: no minimisation visitor adds or replaces statements or test cases", floor=6)
     ctx.rule("C22.restore", "_minimize clones the suite before any minimiser runs and restores from that clone when _check_coverage reports a difference; _check_coverage compares all coverages with isclose", floor=5)
 
@@ -325,9 +327,57 @@ def check(ctx) -> None:
         iss = [n for n in cfg.nodes if n.kind == "stmt" and isinstance(n.stmt, ast.Assign) and norm(n.stmt.targets[0]) == "is_same"]
         ok = len(iss) == 1 and norm(iss[0].stmt.value) == "_check_coverage(original_coverages, minimized_coverages)"
         ctx.check("C22.restore", iss[0].stmt if iss else mn, ok, "is_same is not _check_coverage(original_coverages, minimized_coverages)", what="is_same from _check_coverage(original, minimized)")
+    # the comparison must see the minimized suite, and no coverage query takes the whole collection of coverage functions
+    mcov = [n for n in cfg.nodes if n.kind == "stmt" and isinstance(n.stmt, ast.Assign) and norm(n.stmt.targets[0]) == "minimized_coverages"]
+    marks = [n for n in cfg.nodes if n.kind == "stmt" and n.stmt is not None and norm(n.stmt) == "generation_result.changed = True"]
+    if mcov:
+        last_accept_ids = [a.id for a in accepts]
+        # every path from a minimiser run to the computation of the minimized coverages raises the changed flag of the suite
+        unmarked = None
+        for a in accepts:
+            pth = cfg.path([b for b, lab in cfg.succ[a.id] if lab != "exc"], [mcov[0].id], avoid_nodes={n.id for n in marks} | {x for x in last_accept_ids if x != a.id and False}, labels_excluded=("exc",))
+            if pth is not None:
+                unmarked = a
+        ctx.paths += len(accepts)
+        ctx.check("C22.restore", mcov[0].stmt, unmarked is None, "the minimisers change the test cases of the suite in place, but the suite is not marked as changed before its coverage is computed again: the comparison reads the values cached before the minimisation and never notices a loss (CASE minimisation can lower the coverage of the suite)", what="suite marked changed before the minimised coverages are computed", stmt="[stale comparison]")
+    bad_q = [c for c in own_nodes(mn) if isinstance(c, ast.Call) and last_attr(c) == "get_coverage_for" and c.args and norm(c.args[0]) in ("fitness_functions", "algorithm.test_suite_coverage_functions")]
+    ctx.check("C22.restore", bad_q[0] if bad_q else mn, not bad_q, "_minimize asks for the coverage of the whole collection of coverage functions (`get_coverage_for(fitness_functions)`): the collection is unhashable, the restore path raises TypeError exactly when minimisation lost coverage", what="coverage is queried per coverage function", stmt="[coverage query]")
     cc = repo.func(GEN, "_check_coverage")
     ctx.analysed(cc)
     d = [n for n in own_nodes(cc) if isinstance(n, ast.Assign) and _is_isclose_guard(("lit", n.value, True))]
     rets = [n for n in own_nodes(cc) if isinstance(n, ast.Return)]
     ok = len(d) == 1 and all(norm(r.value) == norm(d[0].targets[0]) for r in rets) and [norm(a) for a in d[0].value.args[0].args[1:]] == [a.arg for a in cc.args.args]
     ctx.check("C22.restore", cc, ok, "_check_coverage no longer returns all(map(isclose, original, minimized))", what="_check_coverage = all(map(isclose, original, minimized))")
+
+
+def _asserted(ctx, repo) -> None:
+    from sa.engine import peval
+
+    PP = "pynguin.ga.postprocess"
+    fn = repo.func(PP, "_directly_asserted_variables")
+    ctx.analysed(fn)
+    pmod = repo.module(PP)
+
+    def assertion(kind, source):
+        return peval.Obj(kind, fields={"source": source}, classes=[kind, "ReferenceAssertion"] if kind != "ExceptionAssertion" else ["ExceptionAssertion", "Assertion"])
+
+    def stmt(bound, assertions):
+        return peval.Obj("Statement", fields={"bound_variable": bound, "assertions": list(assertions)})
+
+    cases = {
+        "assertion on the statement's own variable": ([stmt("var_0", [assertion("ObjectAssertion", "var_0")])], {"var_0"}),
+        "attribute path as source": ([stmt("var_0", []), stmt("var_1", [assertion("ObjectAssertion", "var_0.count")])], {"var_0"}),
+        "assertion carried by a statement without a bound variable": ([stmt("var_0", []), stmt(None, [assertion("ObjectAssertion", "var_0.size")])], {"var_0"}),
+        "assertion on another variable than the one the statement binds": ([stmt("var_0", []), stmt("var_1", []), stmt("var_2", [assertion("FloatAssertion", "var_0"), assertion("IsInstanceAssertion", "var_1.x.y")])], {"var_0", "var_1"}),
+        "exception assertions protect nothing": ([stmt("var_0", [assertion("ExceptionAssertion", None)])], set()),
+    }
+    for label, (stmts, want) in cases.items():
+        tc = peval.Obj("TestCase")
+        tc.methods["statements"] = lambda stmts=stmts: list(stmts)
+        tag = f"[asserted: {label}]"
+        try:
+            got = peval.Interp(resolver=peval.repo_resolver(repo), consts={"ExceptionAssertion": peval.Token("ExceptionAssertion"), "ReferenceAssertion": peval.Token("ReferenceAssertion")}).run_function(fn, [tc], {}, pmod)
+        except (peval.Undecided, peval.Raises) as exc:
+            ctx.undecide("C22.asserted", fn, f"{tag}: {exc}")
+            continue
+        ctx.check("C22.asserted", fn, set(got) == want, f"{tag}: protected variables are {sorted(got)}, the asserted ones are {sorted(want)}: the minimisers delete a statement although an assertion refers to the variable it defines", what=f"{tag} -> {sorted(want)}", stmt=tag)
